@@ -58,6 +58,35 @@ pub fn handle(op: &str, req: &Value) -> Option<Value> {
             json!({"scan_rows": scan.clone().ok(), "index_rows": idx.clone().ok(), "scan_err": scan.clone().err(), "index_err": idx.clone().err(),
                    "differs": scan.is_ok() && idx.is_ok() && scan != idx})
         },
+        // the same statement before and after a restart of a durable engine (B-tree index rebuilt from its persisted keys)
+        "relational_index_after_recover" => {
+            let (rowv, ty) = value(&req["row"]);
+            let (condv, _) = value(&req["cond"]);
+            let dir = std::env::var("VERIF_BUILD").unwrap_or_else(|_| "/verif/.build".into());
+            let dir = std::path::PathBuf::from(dir).join("replay-tmp").join(format!("r{}-{}", std::process::id(),
+                std::time::SystemTime::now().duration_since(std::time::UNIX_EPOCH).map(|d| d.as_nanos()).unwrap_or(0)));
+            let _ = std::fs::create_dir_all(&dir);
+            let wal = dir.join("rel.wal");
+            let mk = |o: u8, v: RV| match o { 0 => Condition::Lt("x".into(), v), 1 => Condition::Le("x".into(), v), 2 => Condition::Gt("x".into(), v), _ => Condition::Ge("x".into(), v) };
+            let ask = |e: &RelationalEngine| -> Vec<Option<usize>> { (0..4u8).map(|o| e.select("t", mk(o, condv.clone())).ok().map(|r| r.len())).collect() };
+            let before;
+            {
+                let e = match RelationalEngine::open_durable(&wal, tensor_store::WalConfig::default()) { Ok(e) => e, Err(e) => return Some(json!({"error": e.to_string()})) };
+                let col = Column::new("x", ty.clone()).nullable();
+                if let Err(e2) = e.create_table("t", Schema::new(vec![col])) { return Some(json!({"error": e2.to_string()})); }
+                if let Err(e2) = e.create_btree_index("t", "x") { return Some(json!({"error": e2.to_string()})); }
+                if let Err(e2) = e.insert("t", HashMap::from([("x".to_string(), rowv.clone())])) { return Some(json!({"error": e2.to_string()})); }
+                before = ask(&e);
+            }
+            let after = match RelationalEngine::recover(&wal, &tensor_store::WalConfig::default(), None) { Ok(e) => ask(&e), Err(e) => return Some(json!({"error": e.to_string()})) };
+            let scan_after = RelationalEngine::recover(&wal, &tensor_store::WalConfig::default(), None).ok().map(|e| {
+                let all = e.select("t", Condition::True).map(|r| r.len()).map_err(|e| e.to_string());
+                let _ = e.drop_btree_index("t", "x");
+                (format!("{all:?}"), ask(&e))
+            });
+            let _ = std::fs::remove_dir_all(&dir);
+            json!({"before_restart": before, "after_restart": after, "after_restart_without_index": scan_after, "differs": before != after})
+        },
         "simd_filter_i64" => {
             let opc = req["opc"].as_u64().unwrap_or(0) as u8;
             let vals: Vec<i64> = req["vals"].as_array().into_iter().flatten().map(|x| x.as_i64().unwrap_or(0)).collect();
